@@ -14,3 +14,4 @@ import UF.GroupI2
 import UF.GroupI3
 import UF.GroupL
 import UF.GroupK
+import UF.GroupP1
